@@ -487,7 +487,8 @@ class Live(Family):
                             srv.advance(case["slow_handler"] + 1)
 
                     r = tls_live.tls_fetch(srv.port, url.encode() + b"\r\n" + b"T" * case.get("trail", 0), reader=case["reader"], rcvbuf=case["rcvbuf"], after_request=after_request,
-                                           rng=random.Random(case["seed"]), sink=sink.add, timeout=120,
+                                           rng=random.Random(case["seed"]), sink=sink.add, timeout=25,     # idle time between two reads: nothing legitimate is that quiet
+                                          
                                            stall=lambda: srv.advance(stall_seconds()), stalls=case.get("stalls", 1))
                     used = srv.used_backend
                 g = sink.result()
